@@ -470,11 +470,17 @@ mod request {
                     {
                         break;
                     }
-                    if !(utils::valid_method(&buffer) || utils::valid_version(&buffer)) {
+                    // A short first segment may hold only part of the method or version token
+                    // (the longest one is `PROPPATCH`): judge the start once enough bytes, or the
+                    // whole head, are there.
+                    let complete = contains_two_newlines(&buffer);
+                    if (complete || buffer.len() >= 9)
+                        && !(utils::valid_method(&buffer) || utils::valid_version(&buffer))
+                    {
                         return Err(Error::Syntax);
                     }
 
-                    if contains_two_newlines(&buffer) {
+                    if complete {
                         break;
                     }
                 }
